@@ -8,7 +8,8 @@ PID = "C07"
 FILES = ["theories/Properties/C07.v", "theories/Properties/C07Derived.v", "theories/Properties/C07ErrFlow.v",
          "theories/Examples/C07Examples.v", "theories/Examples/C07Wirings.v",
          "theories/Properties/C07Ctx.v", "theories/Examples/C07Ctx.v",
-         "theories/Properties/C07Quiet.v", "theories/Examples/C07Quiet.v"]
+         "theories/Properties/C07Quiet.v", "theories/Examples/C07Quiet.v",
+         "theories/Properties/C07Panic.v", "theories/Examples/C07Panic.v"]
 
 
 def hexs(s):
@@ -32,6 +33,36 @@ def veto_mode(t):
         if s == "@c07v" and ":" in i:
             return tuple(i.split(":", 1))
     return None
+
+
+def panic_marks(t):
+    """where the harness makes code panic in this transaction (harness/cmd/storageharness/store_c07_panic.go; model
+    Store/TxPanic.v): list of human-readable descriptions, empty = no panicking step"""
+    out = []
+    for s, _, i in tx_vetoes(t):
+        if s == "@c07pn":
+            p = i.split(":")
+            if p[0] == "fail" and len(p) == 2:
+                j = "" if p[1] == "-" else p[1]
+                out.append("the caller's function panics where it would return an error" +
+                           (" (inside nested %s)" % " -> ".join({"U": "db.Update(ctx, ..)", "B": "db.Batch(ctx, ..)"}.get(ch, ch) for ch in j) if j else ""))
+            elif p[0] == "persist" and len(p) == 3:
+                out.append("PersistEntity of %s panics during operation %d" % (p[2], int(p[1]) + 1))
+        elif s == "@c07v" and i.endswith(":panic"):
+            out.append("the vetoing constraint panics in %s" % {"P": "ProcessPreCommit", "IB": "ProcessBeforeUpdate / ProcessAfterUpdate (create) / ProcessBeforeDelete",
+                                                                 "IA": "ProcessAfterUpdate / ProcessBeforeDelete"}.get(i.split(":")[0], i))
+        elif s == "@c07pc" and i.endswith(":p"):
+            out.append("a pre-commit action panics")
+    return out
+
+
+def panic_raised(a):
+    return sorted(x.split(":", 1)[1] for x in a.get("other", ()) if x.startswith("PANIC-RAISED:"))
+
+
+RAISED_TEXT = {"fn": "the caller's function", "persist": "the entity strategy's PersistEntity", "precommit": "a pre-commit action",
+               "constraint-P": "a constraint's ProcessPreCommit", "constraint-IB": "a constraint's ProcessBeforeUpdate / ProcessAfterUpdate / ProcessBeforeDelete",
+               "constraint-IA": "a constraint's ProcessAfterUpdate / ProcessBeforeDelete"}
 
 
 STEP_TEXT = {"s": ".GetSystemContext()", "n": " -> boltz.NewSystemMutateContext(c)", "u": ".UpdateContext(f)",
@@ -66,7 +97,8 @@ def reg_text(reg, nops):
              "at the start of the function" if site == 0 else
              "after the last operation" if site >= nops else "before operation %d of the function" % site)
     via = "ctx" + "".join(STEP_TEXT.get(ch, "?") for ch in path)
-    what = {"f": "AddPreCommitAction(failing)", "o": "AddPreCommitAction(succeeding)", "c": "AddCommitAction"}.get(kind, kind)
+    what = {"f": "AddPreCommitAction(failing)", "o": "AddPreCommitAction(succeeding)", "c": "AddCommitAction",
+            "p": "AddPreCommitAction(panicking)"}.get(kind, kind)
     return "%s: %s . %s" % (where, via, what)
 
 
@@ -101,6 +133,13 @@ def failure_text(t, a):
     """why the (failed) transaction failed, from the inputs and the implementation's own results"""
     res = a["results"]
     bad = [k for k, r in enumerate(res) if r != "ok"]
+    raised = panic_raised(a)
+    if raised or "PANICKED" in a.get("other", ()):
+        how = "the panic reached the caller" if "PANICKED" in a.get("other", ()) else "the caller received an error"
+        if raised:
+            at = ("during operation %d of %d" % (bad[0] + 1, len(res))) if bad else "after every operation of the function succeeded (%s)" % (" ".join(res) or "no operation")
+            return "panic:" + "+".join(raised), "%s panicked %s; %s" % (" and ".join(RAISED_TEXT.get(r, r) for r in raised), at, how)
+        return "panic", "an operation panicked"
     if "panic" in res:
         return "panic", "an operation panicked"
     if bad:
@@ -126,6 +165,8 @@ def coarse(results):
 
 def compare(a, b, typed=False, hooks=False):
     ra, rb = storefam.proj_results(a), storefam.proj_results(b)
+    # typed also covers transactions with panicking steps: whether a step fails by returning an error or by panicking is
+    # irrelevant (Properties/C07Panic.v failure_kind_is_irrelevant) - failed / ok is compared
     if typed:
         # the vetoes of this transaction carry an error kind of their own and are raised at another stage than the
         # model's (which knows one veto stage and one kind): C07 is about error-or-nil, compare that
@@ -162,18 +203,35 @@ def oracle_(sch, txs, io, mo):
         nops = len(split_tx(t)[3]) if regs else 0
         # a failing pre-commit action registered through a context that BELONGS to the transaction: no step of the
         # derivation builds a new context object (design/C07.md section 8; Properties/C07Ctx.v)
-        live_fail = [r for r in regs if r[2] == "f" and "x" not in r[1]]
+        live_fail = [r for r in regs if r[2] in "fp" and "x" not in r[1]]
         dead_fail = [r for r in regs if r[2] == "f" and "x" in r[1]]
         ca_after = [x for x in a.get("other", ()) if x.startswith("CA-AFTER-ROLLBACK:")]
         has_fail_op = "FAIL" in t or "FAILT" in t
         raised = sorted(x.split(":", 2)[2] for x in a.get("other", ()) if x.startswith("RAISED:persist:"))
         mode = veto_mode(t)
-        if a["vetoed"] and a["commit"]:
+        praised = panic_raised(a)
+        panicked = "PANICKED" in a.get("other", ())
+        call = "Db.Batch" if any(v[0] == "@batch" for v in tx_vetoes(t)) else "Db.Update"
+        if praised and a["commit"]:
+            # code inside the transaction panicked and the caller was told the transaction succeeded
+            added, gone = sorted(set(a["facts"]) - set(prev)), sorted(set(prev) - set(a["facts"]))
+            hk = hook_tokens(a)
+            out.append(("C07:panic-committed", "%s panicked inside the transaction (results %s), yet %s returned nil: the caller was told the "
+                        "transaction succeeded%s%s" % (
+                            " and ".join(RAISED_TEXT.get(r, r) for r in praised), a["results"], call,
+                            (" and what the function had written up to the panic is committed (+%s -%s)" % (added[:4], gone[:4])) if added or gone
+                            else " (nothing had been written)",
+                            ("; hooks ran: " + hooks_text(hk)) if hk else ""), k))
+        elif (panicked or "panic" in a["results"]) and not praised:
+            out.append(("C07:operation-panicked", "the library panicked inside the transaction although the harness made nothing panic (results %s%s); "
+                        "on the pinned tree this only happens after an earlier transaction committed a half-applied change" % (
+                            a["results"], ", the panic reached the caller" if panicked else ""), k))
+        elif a["vetoed"] and a["commit"]:
             stage = {None: "ProcessPreCommit", "P": "ProcessPreCommit of an entity constraint",
                      "IB": "an index constraint (ProcessBeforeUpdate / ProcessAfterUpdate of a create / ProcessBeforeDelete)",
                      "IA": "an index constraint (ProcessAfterUpdate / ProcessBeforeDelete)"}[mode[0] if mode else None]
             kind = {"err": "a plain error", "notfound": "a RecordNotFoundError", "refexists": "a ReferenceExistsError",
-                    "dup": "a UniqueIndexDuplicateError"}[mode[1] if mode else "err"]
+                    "dup": "a UniqueIndexDuplicateError", "panic": "a panic"}[mode[1] if mode else "err"]
             out.append(("C07:veto-swallowed", "a constraint vetoed a change with %s in %s (vetoes %s), yet every operation returned nil "
                         "and the transaction committed (results %s)" % (
                             kind, stage, [v for v in tx_vetoes(t) if not v[0].startswith("@")], a["results"]), k))
@@ -181,9 +239,6 @@ def oracle_(sch, txs, io, mo):
             out.append(("C07:storage-error-swallowed", "PersistEntity of %s ended with an error latched in the bucket it wrote to (required "
                         "string, unusable list key or refused tag value), yet every operation returned nil and the transaction "
                         "committed (results %s)" % ("/".join(raised), a["results"]), k))
-        elif "panic" in a["results"]:
-            out.append(("C07:operation-panicked", "a store operation panicked inside the transaction (results %s); on the pinned tree "
-                        "this only happens after an earlier transaction committed a half-applied change" % a["results"], k))
         elif any(r != "ok" for r in a["results"]) and a["commit"]:
             out.append(("C07:commit-after-error", "an operation returned an error but Db.Update committed", k))
         elif precommit_fails and a["commit"]:
@@ -467,14 +522,19 @@ def describe(case):
                 parts.append("Create %s/%s with a refused tag value" % (o[1], unhex(o[2])))
             else:
                 parts.append("caller error")
-        vt = ["%s/%s/%s" % (a, b, unhex(i)) for a, b, i in vetoes if a not in ("@c07pc", "@c07open", "@c07hk")]
+        vt = ["%s/%s/%s" % (a, b, unhex(i)) for a, b, i in vetoes if a not in ("@c07pc", "@c07open", "@c07hk", "@c07pn", "@batch")]
+        pm = panic_marks(p.split())
         opn, regs = ctx_program(p.split())
         ctxp = ""
         if regs or opn:
             ctxp = " [%s%s]" % ({"nil": "opened with nil; ", "plain": "opened with the plain context; "}.get(opn, ""),
                                 "; ".join(reg_text(r, len(ops)) for r in regs))
-        out.append("Db.Update%s%s%s%s { %s }" % (" [system ctx]" if s_ == "1" else "", " [failing pre-commit action]" if p_ == "1" else "",
-                                                " vetoes %s" % vt if vt else "", ctxp, "; ".join(parts)))
+        if pm:
+            ctxp += " [PANICS: %s]" % "; ".join(pm)
+            parts = [x.replace("caller error", "caller code panics") if any("caller's function" in m for m in pm) else x for x in parts]
+        out.append("%s%s%s%s%s { %s }" % ("Db.Batch" if any(a == "@batch" for a, _, _ in vetoes) else "Db.Update",
+                                          " [system ctx]" if s_ == "1" else "", " [failing pre-commit action]" if p_ == "1" else "",
+                                          " vetoes %s" % vt if vt else "", ctxp, "; ".join(parts)))
     return " ;; ".join(out)
 
 
@@ -484,13 +544,15 @@ def short(s):
 
 def compare_case(sch, txs):
     def cmp(a, b, k):
-        return compare(a, b, typed=veto_mode(txs[k]) is not None, hooks=hooks_marked(txs[k]))
+        return compare(a, b, typed=veto_mode(txs[k]) is not None or bool(panic_marks(txs[k])), hooks=hooks_marked(txs[k]))
     return cmp
 
 
 def main(argv):
     c = vlib.Check(PID, argv)
     c.assumptions = ["bbolt rollback restores the previous content (trusted; observed by the full traversal after every transaction)",
+                     "Go's panic unwinding skips every statement after the panicking call and runs deferred functions only (Store/TxPanic.v transcribes "
+                     "DbImpl.Update / bbolt DB.Update under it; observed: the panic reaches the harness's recover around Db.Update / Db.Batch)",
                      "one MutateContext per transaction (re-using a context across transactions is documented misuse)"]
     proof_ok = c.proof_step(FILES, translators=["errflow"])
     storefam.run_family(c, "c07", 1600, 20000, compare, oracle,
@@ -503,6 +565,10 @@ def main(argv):
                         "context; succeeding pre-commit actions and commit actions likewise), constraint vetoes of four error kinds raised at the pre-commit stage or inside the index constraints of the "
                         "store / its parent / its children, duplicates, missing fk targets, unusable keys (empty set-index value, blank id, over-long "
                         "index keys and list elements at the bbolt limit), empty required strings and refused tag values at parent and child level; "
+                        "16 % of the transactions carry a step that PANICS (real nil dereference) instead of returning an error - the caller's function (also inside "
+                        "nested joined db.Update / db.Batch), a constraint in ProcessPreCommit / ProcessBeforeUpdate / ProcessAfterUpdate / ProcessBeforeDelete, the entity "
+                        "strategy's PersistEntity, a pre-commit action registered through any context of the transaction - at any position, through Db.Update and Db.Batch; "
+                        "the panic is observed by a recover outside the library call and the transaction is then checked like any failed one; "
                         "after every transaction the bolt file is traversed and compared with the model state, results and delivered events included.",
                         command="storec07", compare_case=compare_case)
     c.cov["oracle_hits"] = dict(ORACLE_HITS)
